@@ -187,3 +187,283 @@ func checkKeyedStores(r *Run) {
 		r.Undecide("C07-R7: no visitor handler stores into a string-keyed map (the map literal visitor changed?)")
 	}
 }
+
+// checkEmitterPackageState (R9): emitting a model is a function of the model. State of the format package that one
+// emission leaves behind and another picks up — a pooled buffer, a cache, a counter — makes the text depend on what was
+// emitted before: after a failed emission the next one starts with the leftovers. Package variables of the emitter are
+// allowed only as tables that no function writes.
+func checkEmitterPackageState(r *Run, rule string) {
+	p := r.MustPkg("cypher/models/cypher/format")
+	info := p.TypesInfo
+	vars := map[types.Object]*ast.ValueSpec{}
+	for _, f := range p.Syntax {
+		for _, d := range f.Decls {
+			gd, ok := d.(*ast.GenDecl)
+			if !ok || gd.Tok != token.VAR {
+				continue
+			}
+			for _, sp := range gd.Specs {
+				vs := sp.(*ast.ValueSpec)
+				for _, nm := range vs.Names {
+					if obj := info.Defs[nm]; obj != nil && nm.Name != "_" {
+						vars[obj] = vs
+					}
+				}
+			}
+		}
+	}
+	syncTyped := func(t types.Type) bool {
+		if pt, ok := t.(*types.Pointer); ok {
+			t = pt.Elem()
+		}
+		n := namedOf(t)
+		return n != nil && n.Obj().Pkg() != nil && (n.Obj().Pkg().Path() == "sync" || n.Obj().Pkg().Path() == "sync/atomic")
+	}
+	written := map[types.Object]token.Pos{}
+	used := map[types.Object]bool{}
+	for _, f := range p.Syntax {
+		for _, d := range f.Decls {
+			fd, ok := d.(*ast.FuncDecl)
+			if !ok || fd.Body == nil {
+				continue
+			}
+			ast.Inspect(fd.Body, func(x ast.Node) bool {
+				switch t := x.(type) {
+				case *ast.Ident:
+					if _, isVar := vars[info.Uses[t]]; isVar {
+						used[info.Uses[t]] = true
+					}
+				case *ast.AssignStmt:
+					for _, lhs := range t.Lhs {
+						e := ast.Unparen(lhs)
+						if ix, ok := e.(*ast.IndexExpr); ok {
+							e = ast.Unparen(ix.X)
+						}
+						if id, ok := e.(*ast.Ident); ok {
+							if _, isVar := vars[info.Uses[id]]; isVar {
+								written[info.Uses[id]] = t.Pos()
+							}
+						}
+					}
+				}
+				return true
+			})
+		}
+	}
+	n := 0
+	for obj := range vars {
+		n++
+		construct := "format." + obj.Name()
+		switch {
+		case syncTyped(obj.Type()) && used[obj]:
+			r.Fail(rule, construct, obj.Pos(), "the emitter keeps %s (%s) at package level and its functions use it: what one emission leaves there the next one finds — after an emission that failed part-way the following query is written behind the leftovers", obj.Name(), obj.Type())
+		case written[obj] != token.NoPos:
+			r.Fail(rule, construct, written[obj], "the package variable %s is written by the emitter's functions: the emitted text depends on earlier emissions", obj.Name())
+		default:
+			r.Pass(rule, construct, obj.Pos(), "a table no function writes")
+		}
+	}
+	r.Ob(rule, "format:scanned", token.NoPos, true, "%d package variables of the emitter examined", n)
+}
+
+// checkNameCodecSymmetry (R10): label and relationship type names pass from text to model (graph.StringKind in the front
+// end) and from model to text (Kind.String() in the emitter). If one side removes or adds the backticks of an escaped
+// name, the other side has to do the inverse; today neither does. A front end that strips them while the emitter still
+// writes the name as it is turns (n:`Domain Admins`) into text that no longer parses, and (n:`A:B`) into two labels.
+// (R8) a parsed number reaches the model without a narrowing or sign-changing conversion.
+func checkNameCodecSymmetry(r *Run) {
+	fp := r.MustPkg("cypher/frontend")
+	ep := r.MustPkg("cypher/models/cypher/format")
+	finfo, einfo := fp.TypesInfo, ep.TypesInfo
+	involves := func(info *types.Info, e ast.Node, decls map[string]*ast.FuncDecl, pkg *types.Package, words ...string) string {
+		found := ""
+		var visit func(e ast.Node, depth int)
+		visit = func(e ast.Node, depth int) {
+			ast.Inspect(e, func(x ast.Node) bool {
+				call, ok := x.(*ast.CallExpr)
+				if !ok || found != "" {
+					return found == ""
+				}
+				fn := calleeOf(info, call)
+				if fn == nil {
+					return true
+				}
+				lower := strings.ToLower(fn.Name())
+				for _, w := range words {
+					if strings.Contains(lower, w) {
+						found = fn.Name()
+						return false
+					}
+				}
+				if fn.Pkg() == pkg && depth < 2 {
+					if d := decls[fn.Name()]; d != nil && d.Body != nil {
+						visit(d.Body, depth+1)
+					}
+				}
+				return true
+			})
+		}
+		visit(e, 0)
+		return found
+	}
+	fdecls, edecls := FuncDecls(fp), FuncDecls(ep)
+	// front end: arguments of graph.StringKind
+	decodes, sites := "", 0
+	var firstSite token.Pos
+	for _, f := range fp.Syntax {
+		ast.Inspect(f, func(x ast.Node) bool {
+			call, ok := x.(*ast.CallExpr)
+			if !ok || len(call.Args) != 1 {
+				return true
+			}
+			if fn := calleeOf(finfo, call); fn != nil && fn.Name() == "StringKind" {
+				sites++
+				if firstSite == token.NoPos {
+					firstSite = call.Pos()
+				}
+				if u := involves(finfo, call.Args[0], fdecls, fp.Types, "unescape", "unquote", "trim"); u != "" && decodes == "" {
+					decodes = u
+				}
+			}
+			return true
+		})
+	}
+	// helpers of the front end that wrap StringKind (kindFromSchemaName-like): their body decides as well
+	for _, fd := range fdecls {
+		if fd.Body == nil || fd.Type.Results == nil || len(fd.Type.Results.List) != 1 || namedName(finfo.TypeOf(fd.Type.Results.List[0].Type)) != "Kind" {
+			continue
+		}
+		if u := involves(finfo, fd.Body, fdecls, fp.Types, "unescape", "unquote", "trim"); u != "" && decodes == "" {
+			decodes = u
+		}
+	}
+	// emitter: functions that write Kind.String()
+	encodes := ""
+	writers := 0
+	for _, fd := range edecls {
+		if fd.Body == nil {
+			continue
+		}
+		var stack []ast.Node
+		ast.Inspect(fd.Body, func(x ast.Node) bool {
+			if x == nil {
+				stack = stack[:len(stack)-1]
+				return true
+			}
+			stack = append(stack, x)
+			call, ok := x.(*ast.CallExpr)
+			if !ok {
+				return true
+			}
+			sel, ok := call.Fun.(*ast.SelectorExpr)
+			if !ok || sel.Sel.Name != "String" || namedName(einfo.TypeOf(sel.X)) != "Kind" {
+				return true
+			}
+			writers++
+			// is the kind's text an argument (at any depth) of an escaping call?
+			for _, a := range stack[:len(stack)-1] {
+				if outer, ok := a.(*ast.CallExpr); ok {
+					if fn := calleeOf(einfo, outer); fn != nil {
+						lower := strings.ToLower(fn.Name())
+						if strings.Contains(lower, "escape") || strings.Contains(lower, "quote") {
+							encodes = fn.Name()
+						}
+					}
+				}
+			}
+			return true
+		})
+	}
+	if sites == 0 || writers == 0 {
+		r.Undecide("C07-R10: kind names are not built with graph.StringKind in the front end (%d sites) or not written with Kind.String() in the emitter (%d functions)", sites, writers)
+		return
+	}
+	switch {
+	case decodes != "" && encodes == "":
+		r.Fail("C07-R10-name-codec-symmetry", "kind-names", firstSite, "the front end removes the backticks of label and relationship type names (%s) but the emitter writes Kind.String() as it is: (n:`Domain Admins`) is re-emitted as (n:Domain Admins), which does not parse, and (n:`A:B`) as two labels", decodes)
+	case decodes == "" && encodes != "":
+		r.Fail("C07-R10-name-codec-symmetry", "kind-names", firstSite, "the emitter escapes kind names (%s) but the front end keeps the backticks of an escaped name in the kind: every round trip adds a pair", encodes)
+	default:
+		r.Pass("C07-R10-name-codec-symmetry", "kind-names", firstSite, "front end and emitter treat the backticks of kind names alike (%d StringKind sites, %d emitter functions)", sites, writers)
+	}
+}
+
+// checkParsedNumbersUnconverted (R8): the value of a number literal is what strconv parsed. An integer conversion on
+// the way into the model that changes size or signedness wraps for part of the accepted range: ParseUint followed by
+// int64(v) accepts 18446744073709551615 and models it as -1.
+func checkParsedNumbersUnconverted(r *Run) {
+	fp := r.MustPkg("cypher/frontend")
+	info := fp.TypesInfo
+	parses := 0
+	for _, f := range fp.Syntax {
+		for _, d := range f.Decls {
+			fd, ok := d.(*ast.FuncDecl)
+			if !ok || fd.Body == nil {
+				continue
+			}
+			parsed := map[types.Object]string{}
+			ast.Inspect(fd.Body, func(x ast.Node) bool {
+				as, ok := x.(*ast.AssignStmt)
+				if !ok || len(as.Rhs) != 1 {
+					return true
+				}
+				call, ok := as.Rhs[0].(*ast.CallExpr)
+				if !ok {
+					return true
+				}
+				if fn := calleeOf(info, call); fn != nil && fn.Pkg() != nil && fn.Pkg().Path() == "strconv" && strings.HasPrefix(fn.Name(), "Parse") {
+					if id, ok := as.Lhs[0].(*ast.Ident); ok && id.Name != "_" {
+						parsed[info.ObjectOf(id)] = fn.Name()
+						parses++
+					}
+				}
+				return true
+			})
+			ast.Inspect(fd.Body, func(x ast.Node) bool {
+				call, ok := x.(*ast.CallExpr)
+				if !ok || len(call.Args) != 1 {
+					return true
+				}
+				tv, isConv := info.Types[call.Fun]
+				if !isConv || !tv.IsType() {
+					return true
+				}
+				id, ok := ast.Unparen(call.Args[0]).(*ast.Ident)
+				if !ok {
+					return true
+				}
+				how, isParsed := parsed[info.Uses[id]]
+				if !isParsed {
+					return true
+				}
+				from, ok1 := info.TypeOf(id).Underlying().(*types.Basic)
+				to, ok2 := tv.Type.Underlying().(*types.Basic)
+				if !ok1 || !ok2 || from.Info()&types.IsInteger == 0 || to.Info()&types.IsInteger == 0 {
+					return true
+				}
+				fromUnsigned, toUnsigned := from.Info()&types.IsUnsigned != 0, to.Info()&types.IsUnsigned != 0
+				if fromUnsigned != toUnsigned || sizeOfBasic(to) < sizeOfBasic(from) {
+					r.Fail("C07-R8-parsed-number-unconverted", funcDisplayName(fd)+":"+exprString(r.Fset, call), call.Pos(), "the result of strconv.%s is converted from %s to %s on its way into the model: part of the range the parse accepts wraps, so the literal is accepted and modelled as a different number (18446744073709551615 as -1)", how, from.Name(), to.Name())
+				}
+				return true
+			})
+		}
+	}
+	if parses == 0 {
+		r.Undecide("C07-R8: no strconv.Parse… call found in the front end")
+		return
+	}
+	r.Ob("C07-R8-parsed-number-unconverted", "frontend:scanned", token.NoPos, true, "%d parsed numbers examined for narrowing or sign-changing conversions", parses)
+}
+
+func sizeOfBasic(b *types.Basic) int {
+	switch b.Kind() {
+	case types.Int8, types.Uint8:
+		return 1
+	case types.Int16, types.Uint16:
+		return 2
+	case types.Int32, types.Uint32:
+		return 4
+	}
+	return 8
+}
